@@ -1,4 +1,4 @@
-import HpackVerif.Impl.Huff
+import HpackVerif.Impl.HuffFast
 import HpackVerif.Generated.Static
 /-! prototype L2 model of table + decoder + encoder (mirrors the *unfixed* tree) -/
 namespace Impl
